@@ -24,6 +24,19 @@ PROPS = {
         level_text="Lean 4 theorems over the heap model of vec_znx: value, frame and bounds for all sizes (incl. 0), strides, dimensions and contents; model tied to /repo by bit-exact whole-arena differential runs (canary padding, all size orderings, both module types and dispatch masks)",
         design_ref="DESIGN.md §5 C08",
     ),
+    "C11": dict(
+        title="Memory contract: declared extents and *_tmp_bytes scratch are never exceeded",
+        module="SpqProofs.Properties.C11",
+        gen=["tmpbytes"],
+        variants={"plain": None, "asan": None},
+        streams=dict(quick=[("mem_pairs", "asan"), ("vz_box", "asan"), ("vz_norm", "asan"), ("kz_probe", "asan"), ("kz_norm", "asan"), ("ca_prog", "asan")],
+                     thorough=[("mem_pairs", "asan"), ("vz_box", "asan"), ("vz_norm", "asan"), ("kz_probe", "asan"), ("kz_norm", "asan"), ("ca_prog", "asan")]),
+        proved="index logic of every limb-vector operation: declared extents inside the heap imply no out-of-bounds access of the model (all shapes incl. zero limb counts), frame theorems (C18) bound the writes, scratch of the normalisation = one carry limb = *_tmp_bytes; Gen obligation: size formulas = live *_tmp_bytes / bytes_of_* values",
+        not_proved="runtime residue observed by ASan/UBSan-bounds/LSan on exactly-sized heap buffers, not proved: accesses inside float kernels and asm leaves, alloc/free pairing of new_*/delete_*, alignment, allocator overflow abort; DFT/SVP/VMP entry points are covered by the sanitizer streams only until the module-level model lands",
+        level_text="Lean 4 theorems for the index logic (bounds flag, frame, scratch size) + kernel-decided size-formula obligation on live values; the memory-safety residue is tied by sanitizer builds on exact-size buffers (partial)",
+        design_ref="DESIGN.md §5 C11",
+        technique="Lean 4 proof of the index logic + regenerated size facts; sanitizer-instrumented correspondence",
+    ),
     "C12": dict(
         title="Shared modules and precomputed tables are safe for concurrent use",
         module="SpqProofs.Properties.C12",
